@@ -92,6 +92,7 @@ class Prop(BaseProp):
     def setup_worker(self):
         runner.cminx()
         self._plan = self.plan(self.tier)
+        self._dirmode = 0
 
     def call(self, argv, sb, home, via_main):
         """cminx.main(argv) -- or, for the bulk, cminx.document() with the Settings main would build from the packaged
@@ -125,16 +126,24 @@ class Prop(BaseProp):
             o = self.call([src, "-o", out], sb, home, via_main)
             page = os.path.join(out, "faulty.rst")
         elif mode == "dir":
+            # the faulty file sits in the top directory, in the first or in the last sub-directory walked; clean files in
+            # every other directory (a failure must not be forgotten because later directories are fine)
             d = os.path.join(sb, "proj")
-            os.makedirs(os.path.join(d, "sub"), exist_ok=True)
-            for fn in ("aaa.cmake", "sub/zzz.cmake"):
-                with open(os.path.join(d, fn), "w") as f:
+            where = ["", "aa", "zz"][self._dirmode % 3]
+            self._dirmode += 1
+            shutil.rmtree(d, ignore_errors=True)
+            for sub in ("", "aa", "zz"):
+                os.makedirs(os.path.join(d, sub), exist_ok=True)
+                with open(os.path.join(d, sub, "clean_a.cmake"), "w") as f:
                     f.write("function(ok)\nendfunction()\n")
-            src = os.path.join(d, "sub", name)
+                with open(os.path.join(d, sub, "zclean.cmake"), "w") as f:
+                    f.write("function(ok2)\nendfunction()\n")
+            src = os.path.join(d, where, name)
             with open(src, "w", encoding="utf-8", newline="") as f:
                 f.write(text)
             o = self.call([d, "-r", "-o", out], sb, home, via_main)
-            page = os.path.join(out, "sub", "faulty.rst")
+            page = os.path.join(out, where, "faulty.rst")
+            res.see("faulty_file_location_in_directory_runs", where or "top")
             res.count("directory_mode_runs")
         else:
             src = os.path.join(sb, name)
